@@ -53,6 +53,9 @@ def replay_line(line):
     if algo in ("tf", "unit"):
         yield from replay_order_line(tr)
         return
+    if algo == "path":
+        yield from replay_path_line(tr)
+        return
     if algo == "hop":
         D = build_dfa(tr["d1"])
         ch = Chooser("hop.pop", tr["schedule"], lambda x, w: set(x[0]) == set(w[0]) and x[1] == w[1])
@@ -129,6 +132,130 @@ def replay_line(line):
                "src": src}
         yield {"op": "sched_replay", "algo": "ec", "followed": ch.ok and ch.k == len(tr["schedule"]),
                "expected": sorted(tr["final"]), "actual": sorted(r or []), "src": src}
+
+
+class PathChooser:
+    """nfa_find_epsilon_path / pda_find_epsilon_path: the schedule is a sequence of pops, each followed by the
+    edges of the popped state in the order in which they are examined (a prefix for the pop that discovers f)"""
+
+    def __init__(self, prefix, schedule, key):
+        self.pop_site, self.edge_site, self.key = prefix + ".pop", prefix + ".edge", key
+        self.groups = []
+        for x in schedule:
+            if x[0] == "pop":
+                self.groups.append((x[1], []))
+            else:
+                self.groups[-1][1].append(x[2])
+        self.k, self.ok, self.edges_seen = 0, True, 0
+
+    def __call__(self, site, S):
+        if site == self.pop_site:
+            if self.k >= len(self.groups):
+                self.ok = False
+                return None
+            want = self.groups[self.k][0]
+            self.k += 1
+            for x in S:
+                if self.key(x) == want:
+                    return x
+            self.ok = False
+            return None
+        if site == self.edge_site:
+            if not 0 < self.k <= len(self.groups):
+                self.ok = False
+                return None
+            want = self.groups[self.k - 1][1]
+            by = {}
+            for x in S:
+                by.setdefault(self.key(x), []).append(x)
+            last = self.k == len(self.groups)
+            if any(t not in by for t in want) or (not last and set(want) != set(by)):
+                self.ok = False
+                return None
+            self.edges_seen += len(want)
+            return [x for t in want for x in by[t]] + [x for t in sorted(by) if t not in want for x in by[t]]
+        return None
+
+    def followed(self):
+        return self.ok and self.k == len(self.groups) and self.edges_seen == sum(len(g[1]) for g in self.groups)
+
+
+PATH_BUDGET = {"timeouts": 6}       # per process: calls that may be waited for (1 s of CPU time each; they take < 1 ms)
+
+
+def _pguard(fn):
+    r, exc = guarded(fn, 1.0)
+    if exc == "Timeout":
+        PATH_BUDGET["timeouts"] -= 1
+    return r, exc
+
+
+def replay_path_line(tr):
+    """a schedule of the path search forced onto nfa_find_epsilon_path directly (any source set), and - for a
+    single source state - onto nfa_simulate_word / pda_simulate_word of the empty word, where it is the one path
+    the backward reconstruction needs (initial state = source, accepting set = {target})"""
+    from gambatools import _verif
+    import gambatools.nfa_algorithms as na
+    import gambatools.pda_algorithms as pa
+    from gambatools.nfa import NFA
+    from . import universe as U
+    src = {"kind": "gen_line", "line": tr}
+    if PATH_BUDGET["timeouts"] <= 0:
+        return                      # non-termination has been reported six times by this process already
+    Q = ["s0", "s1", "s2"] + sorted({x for e in tr["edges"] for x in e} - {"s0", "s1", "s2"})
+    R, f, sched = list(tr["R"]), tr["f"], tr["schedule"]
+
+    def mk(q0):
+        delta = defaultdict(set)
+        for p, q in tr["edges"]:
+            delta[p, "e"].add(q)
+        return NFA(set(Q), {"a"}, delta, q0, {f}, "e")
+    N = mk(R[0])
+    ch = PathChooser("path", sched, lambda x: x)
+    _verif.CHOOSER = ch
+    _verif.take()
+    try:
+        path, exc = _pguard(lambda: na.nfa_find_epsilon_path(N, set(R), f))
+    finally:
+        _verif.CHOOSER = None
+    evs = _verif.take()
+    if exc == "none":
+        steps = [["pop", ab.enc(t["src"])] if t["ev"] == "path.pop" else ["edge", ab.enc(t["src"]), ab.enc(t["target"])]
+                 for t in evs if t["ev"] in ("path.pop", "path.edge")]
+        yield {"op": "path_trace", "fa": ab.nfa(N), "R": ab.sset(R), "f": ab.enc(f), "steps": steps,
+               "res": [ab.enc(x) for x in path] if path is not None else ["~none~"], "src": src}
+    yield {"op": "sched_replay", "algo": "path", "followed": ch.followed(), "expected": list(tr["final"]),
+           "actual": (list(path) if path is not None else ["~none~"]) if exc == "none" else [exc], "src": src}
+    if len(R) != 1:
+        return
+    # the public simulations of the empty word under the same schedule
+    ch = PathChooser("path", sched, lambda x: x)
+    _verif.CHOOSER = ch
+    try:
+        run, exc = _pguard(lambda: na.nfa_simulate_word(N, ""))
+    finally:
+        _verif.CHOOSER = None
+    _verif.take()
+    yield {"op": "sim_fa", "kind": "nfa", "fa": ab.nfa(N), "w": ab.word(""), "isnone": run is None,
+           "run": [[ab.enc(q), ab.word(u)] for (q, u) in (run or [])], "exc": exc, "src": src}
+    reach = tr["final"] != ["~none~"]
+    yield {"op": "sched_replay", "algo": "path/nfa_simulate_word", "followed": ch.followed() if reach and sched else True,
+           "expected": list(tr["final"]) if reach else ["~none~"],
+           "actual": ([q for (q, u) in run] if run is not None else ["~none~"]) if exc == "none" else [exc], "src": src}
+    P = U.make_pda(Q, "a", "X", [(p, "eps", "eps", q, "eps") for p, q in tr["edges"]], R[0], [f], eps="eps")
+    ch = PathChooser("ppath", sched, lambda x: x.q if hasattr(x, "q") else x[0])
+    _verif.CHOOSER = ch
+    try:
+        run, exc = _pguard(lambda: pa.pda_simulate_word(P, ""))
+    finally:
+        _verif.CHOOSER = None
+    _verif.take()
+    yield {"op": "sim_pda", "pda": ab.pda(P), "w": ab.word(""), "isnone": run is None, "limit": 1000,
+           "run": [[ab.enc(q), ab.word(u), [ab.enc(x) for x in st]] for (q, u, st) in (run or [])],
+           "exc": exc, "src": src}
+    yield {"op": "sched_replay", "algo": "path/pda_simulate_word", "followed": ch.followed() if reach and sched else True,
+           "expected": list(tr["final"]) if reach else ["~none~"],
+           "actual": ([q for (q, u, st) in run] if run is not None else ["~none~"]) if exc == "none" else [exc], "src": src}
 
 
 class OrderChooser:
